@@ -46,25 +46,29 @@ pub open spec fn u_end(t: Seq<Seq<u8>>, a: int) -> int
 pub open spec fn u_keys_ok(t: Seq<Seq<u8>>, a: int, e: int) -> bool {
     forall|i: int| a <= i < e && (#[trigger] t[i]).len() == 2 ==> is_ukey(t[i])
 }
+/// key test: -u- (mode true): any 2-byte subtag is a key position; -t- (mode false): alpha digit
+pub open spec fn is_key(mode: bool, s: Seq<u8>) -> bool { if mode { s.len() == 2 } else { is_tkey(s) } }
+
 /// index of the last key in [a, e), or -1
-pub open spec fn last_key(t: Seq<Seq<u8>>, a: int, e: int, is_key: spec_fn(Seq<u8>) -> bool) -> int
+pub open spec fn last_key(t: Seq<Seq<u8>>, a: int, e: int, mode: bool) -> int
     decreases e - a
 {
-    if e <= a { -1 } else if is_key(t[e - 1]) { e - 1 } else { last_key(t, a, e - 1, is_key) }
+    if e <= a { -1 } else if is_key(mode, t[e - 1]) { e - 1 } else { last_key(t, a, e - 1, mode) }
 }
 /// keyword / tfield map after reading the subtags [a, e): key -> lower-cased values without `true`
-pub open spec fn kv_fold(t: Seq<Seq<u8>>, a: int, e: int, is_key: spec_fn(Seq<u8>) -> bool) -> Map<tinystr::TinyAsciiStr<4>, Seq<Seq<u8>>>
+/// (a repeated key restarts its value list: the later occurrence wins)
+pub open spec fn kv_fold(t: Seq<Seq<u8>>, a: int, e: int, mode: bool) -> Map<tinystr::TinyAsciiStr<4>, Seq<Seq<u8>>>
     decreases e - a
 {
     if e <= a {
         Map::empty()
     } else {
-        let prev = kv_fold(t, a, e - 1, is_key);
+        let prev = kv_fold(t, a, e - 1, mode);
         let s = t[e - 1];
-        if is_key(s) {
+        if is_key(mode, s) {
             prev.insert(tiny::<4>(lower(s)), Seq::empty())
         } else {
-            let p = last_key(t, a, e - 1, is_key);
+            let p = last_key(t, a, e - 1, mode);
             if p < 0 || lower(s) == true_word() {
                 prev
             } else {
@@ -74,12 +78,14 @@ pub open spec fn kv_fold(t: Seq<Seq<u8>>, a: int, e: int, is_key: spec_fn(Seq<u8
         }
     }
 }
-pub open spec fn len2(s: Seq<u8>) -> bool { s.len() == 2 }
-/// attributes = the subtags before the first key
+/// index of the first key in [a, e), or e when there is none (attributes = subtags before it)
 pub open spec fn u_first_key(t: Seq<Seq<u8>>, a: int, e: int) -> int
     decreases e - a
 {
-    if a < e && t[a].len() != 2 { u_first_key(t, a + 1, e) } else if a < e { a } else { e }
+    if e <= a { a } else {
+        let p = u_first_key(t, a, e - 1);
+        if p < e - 1 { p } else if t[e - 1].len() == 2 { e - 1 } else { e }
+    }
 }
 
 pub struct UView {
@@ -90,7 +96,7 @@ pub struct UView {
 pub open spec fn u_expected(t: Seq<Seq<u8>>, a: int, e: int, v: UView) -> bool {
     &&& strictly_sorted(v.attrs)
     &&& forall|x: Seq<u8>| v.attrs.contains(x) <==> (exists|i: int| a <= i < u_first_key(t, a, e) && x == lower(#[trigger] t[i]))
-    &&& v.kw == kv_fold(t, a, e, |s: Seq<u8>| len2(s))
+    &&& v.kw == kv_fold(t, a, e, true)
 }
 pub open spec fn u_wf(v: UView) -> bool {
     &&& strictly_sorted(v.attrs)
@@ -138,7 +144,7 @@ pub struct TView {
 pub open spec fn t_expected(t: Seq<Seq<u8>>, a: int, v: TView) -> bool {
     &&& v.has_lang == t_has_lang(t, a)
     &&& v.has_lang ==> lid_expected(t.skip(a), v.lang)
-    &&& v.fields == kv_fold(t, t_f0(t, a), t_end(t, a), |s: Seq<u8>| is_tkey(s))
+    &&& v.fields == kv_fold(t, t_f0(t, a), t_end(t, a), false)
 }
 pub open spec fn t_wf(v: TView) -> bool {
     &&& forall|k: tinystr::TinyAsciiStr<4>| v.fields.contains_key(k) ==> is_tkey(text(k)) && lower(text(k)) == text(k)
@@ -204,3 +210,124 @@ pub open spec fn ext_parse(t: Seq<Seq<u8>>, i: int, ev: EView) -> ERes
     }
 }
 pub open spec fn ev0() -> EView { EView { u: None, t: None, x: None } }
+
+// ---- helper lemmas -------------------------------------------------------------------------
+pub proof fn lemma_u_end(t: Seq<Seq<u8>>, a: int, k: int)
+    requires
+        0 <= a <= k <= t.len(),
+        forall|i: int| a <= i < k ==> u_shaped(#[trigger] t[i]),
+        k == t.len() || !u_shaped(t[k]),
+    ensures u_end(t, a) == k,
+    decreases k - a,
+{
+    if a < k { lemma_u_end(t, a + 1, k); }
+}
+pub proof fn lemma_u_end_bounds(t: Seq<Seq<u8>>, a: int)
+    requires 0 <= a <= t.len(),
+    ensures a <= u_end(t, a) <= t.len(),
+    decreases t.len() - a,
+{
+    if a < t.len() && u_shaped(t[a]) { lemma_u_end_bounds(t, a + 1); }
+}
+pub proof fn lemma_tf_end(t: Seq<Seq<u8>>, a: int, k: int)
+    requires
+        0 <= a <= k <= t.len(),
+        forall|i: int| a <= i < k ==> (#[trigger] t[i]).len() != 1,
+        k == t.len() || t[k].len() == 1,
+    ensures tf_end(t, a) == k,
+    decreases k - a,
+{
+    if a < k { lemma_tf_end(t, a + 1, k); }
+}
+pub proof fn lemma_tf_end_bounds(t: Seq<Seq<u8>>, a: int)
+    requires 0 <= a <= t.len(),
+    ensures a <= tf_end(t, a) <= t.len(),
+    decreases t.len() - a,
+{
+    if a < t.len() && t[a].len() != 1 { lemma_tf_end_bounds(t, a + 1); }
+}
+
+pub open spec fn kv_wf(m: Map<tinystr::TinyAsciiStr<4>, Seq<Seq<u8>>>, mode: bool) -> bool {
+    &&& forall|k: tinystr::TinyAsciiStr<4>| m.contains_key(k) ==> (if mode { is_ukey(text(k)) } else { is_tkey(text(k)) }) && lower(text(k)) == text(k)
+    &&& forall|k: tinystr::TinyAsciiStr<4>, i: int| m.contains_key(k) && 0 <= i < m[k].len() ==> {
+            let x = #[trigger] m[k][i];
+            is_utype(x) && lower(x) == x && x != true_word() }
+}
+pub open spec fn vals_wf(s: Seq<Seq<u8>>) -> bool {
+    forall|i: int| 0 <= i < s.len() ==> is_utype(#[trigger] s[i]) && lower(s[i]) == s[i] && s[i] != true_word()
+}
+
+/// sort_unstable + dedup on a vector of TinyStr yields the strictly sorted sequence with the same set
+pub proof fn lemma_sorted_dedup_tiny<const N: usize>(a: Seq<tinystr::TinyAsciiStr<N>>, m: Seq<tinystr::TinyAsciiStr<N>>, b: Seq<tinystr::TinyAsciiStr<N>>)
+    requires
+        sorted_by_ord(m),
+        m.to_multiset() == a.to_multiset(),
+        dedup_of(m, b),
+    ensures
+        strictly_sorted(texts(b)),
+        forall|y: tinystr::TinyAsciiStr<N>| a.contains(y) <==> b.contains(y),
+        forall|x: Seq<u8>| texts(a).contains(x) <==> texts(b).contains(x),
+{
+    axiom_tiny_ord::<N>();
+    broadcast use axiom_text_injective;
+    a.to_multiset_ensures();
+    m.to_multiset_ensures();
+    assert forall|y: tinystr::TinyAsciiStr<N>| a.contains(y) <==> b.contains(y) by {
+        assert(a.contains(y) <==> a.to_multiset().count(y) > 0);
+        assert(m.contains(y) <==> m.to_multiset().count(y) > 0);
+    }
+    assert forall|x: Seq<u8>| texts(a).contains(x) <==> texts(b).contains(x) by {
+        if texts(a).contains(x) {
+            let i = choose|i: int| 0 <= i < texts(a).len() && texts(a)[i] == x;
+            assert(a.contains(a[i]));
+            let j = choose|j: int| 0 <= j < b.len() && b[j] == a[i];
+            assert(texts(b)[j] == x);
+        }
+        if texts(b).contains(x) {
+            let i = choose|i: int| 0 <= i < texts(b).len() && texts(b)[i] == x;
+            assert(b.contains(b[i]));
+            let j = choose|j: int| 0 <= j < a.len() && a[j] == b[i];
+            assert(texts(a)[j] == x);
+        }
+    }
+    assert forall|i: int| 0 <= i < b.len() - 1 implies lex_lt(#[trigger] texts(b)[i], texts(b)[i + 1]) by {
+        assert(ord_le(b[i], b[i + 1]));
+        if text(b[i]) == text(b[i + 1]) { assert(b[i] == b[i + 1]); }
+    }
+    lemma_adjacent_strict_is_strict(texts(b));
+}
+
+/// sort_unstable on a vector of TinyStr: weakly sorted, same multiset of texts
+pub proof fn lemma_sorted_tiny<const N: usize>(m: Seq<tinystr::TinyAsciiStr<N>>)
+    requires sorted_by_ord(m),
+    ensures weakly_sorted(texts(m)),
+{
+    axiom_tiny_ord::<N>();
+}
+
+pub proof fn lemma_lower_props(s: Seq<u8>)
+    ensures
+        lower(s).len() == s.len(),
+        lower(lower(s)) == lower(s),
+        all_alpha(s) ==> all_alpha(lower(s)),
+        all_alnum(s) ==> all_alnum(lower(s)),
+        is_utype(s) ==> is_utype(lower(s)),
+        is_ukey(s) ==> is_ukey(lower(s)),
+        is_tkey(s) ==> is_tkey(lower(s)),
+        is_private(s) ==> is_private(lower(s)),
+{
+    assert(lower(lower(s)) =~= lower(s));
+    assert forall|i: int| 0 <= i < s.len() implies (alpha(s[i]) ==> alpha(lower(s)[i])) && (alnum(s[i]) ==> alnum(lower(s)[i])) by {}
+    if is_ukey(s) { assert(alnum(lower(s)[0]) && alpha(lower(s)[1])); }
+    if is_tkey(s) { assert(alpha(lower(s)[0]) && digit(lower(s)[1])); }
+}
+
+pub proof fn lemma_u_end_gt(t: Seq<Seq<u8>>, a: int, k: int)
+    requires
+        0 <= a <= k < t.len(),
+        forall|i: int| a <= i <= k ==> u_shaped(#[trigger] t[i]),
+    ensures u_end(t, a) > k,
+    decreases k - a,
+{
+    if a < k { lemma_u_end_gt(t, a + 1, k); } else { lemma_u_end_bounds(t, a + 1); }
+}
